@@ -27,6 +27,7 @@ TECHNIQUE = "static analysis of rustc MIR facts: dominance guards, path counting
 
 G = gs.G
 B = "libp2p_gossipsub::behaviour::Behaviour::"
+CONFIGS = [{"name": "gossipsub-features", "packages": ["libp2p-gossipsub"], "features": "metrics,partial-messages"}]
 
 SELFTEST = [
     {"mutation": "handle_received_message: `if !self.duplicate_cache.insert(..)` -> `if self.duplicate_cache.insert(..)`", "caught_by": "recv/delivered only for a first-seen id"},
@@ -317,8 +318,12 @@ def check(ctx):
     fpc = p.call_sites(gs.BEH + r"filter_publish_candidates$")
     for s in fpc:
         a = gs.expand(p, p.site_expr(s)[2][2])
-        ok = gs.has_call(a, gs.BEH + r"publish_peers$")
-        ctx.ob("pub", "candidates come from publish_peers", ok, s.loc(), render(a)[:140])
+        # with the partial-messages feature `candidates` is re-bound by an if/else: every definition must derive from publish_peers
+        vals = [a]
+        if a[0] == "local" and len(p.defs.get(a[1], [])) > 1:
+            vals = [gs.expand(p, p.rvalue_expr(d[3]) if d[0] == "stmt" else p.call_expr(d[3], d[1])) for d in p.defs[a[1]]]
+        ok = bool(vals) and all(gs.has_call(v, gs.BEH + r"publish_peers$") for v in vals)
+        ctx.ob("pub", "candidates come from publish_peers", ok, s.loc(), " | ".join(render(v)[:100] for v in vals))
     pp = ctx.body(G, gs.BEH + r"publish_peers$")
     rr = [x for _, x in gs.ret_exprs(pp)]
     ok = len(rr) == 1 and any(render(c[2][0]) == "self.connected_peers" for c in gs.calls(rr[0], r"HashMap::iter$"))
